@@ -5,6 +5,10 @@ import Yaql.Model.Stream
 /-! Driver for C14: cost of the first k results of a pipeline of streaming operators over an endless source.
 request  {"p":"C14","cases":[{"base":[ints],"delta":d,"dict":bool,"n":prefix length,"k":k,"ops":[...as C13...]}]}
          source element i = base[i mod |base|] + (i div |base|) * delta   (wrapped as {"a": .} when "dict")
+         optional "sec": the pipeline "ops" feeds a SECONDARY collection argument of the operator described by
+         "sec" ({"kind":"join","prim":[..],"f2":..,"g2":..} | {"kind":"zip"|"zipLongest"|"concat","before":[[..]..],
+         "after":[[..]..]} | {"kind":"insertMany"|"replaceMany"|"defaultIfEmpty"|"selectMany","prim":[..],"n":..,"m":..}),
+         followed by the stages "post"; optional "len": the source is finite (closed after "len" elements)
 reply    {"res":[{"outs":[{"v":<value>|"err":cls,"pulls":p,"apps":a}...],"enough":bool} | {"err":"not-streaming"}]} -/
 namespace Yaql.Drv.C14
 open Lean Yaql Yaql.Drv Yaql.Seq Yaql.Stream
@@ -19,16 +23,36 @@ def outJ (o : Out) : Json :=
   | .ok v => jo [("v", valToJson v), ("pulls", jn o.pulls), ("apps", jn o.apps)]
   | .error e => jo [("err", js (C13.errName e)), ("pulls", jn o.pulls), ("apps", jn o.apps)]
 
+/-- the machine of an operator seen from its secondary lazy collection argument -/
+def secMachine (j : Json) : Option Machine :=
+  let prim := C13.valsJ j "prim"
+  let before := C13.valssJ j "before"
+  let after := C13.valssJ j "after"
+  let splice (p : VL × Option VL) : Option Machine := some (mSplice p.1 p.2)
+  match jstr j "kind" with
+  | "join" => some (mJoinInner prim (C13.lam2OfJson (jget j "f2")) (C13.lam2OfJson (jget j "g2")))
+  | "zip" => some (mZipAt before after)
+  | "zipLongest" => some (mZipLongestAt before after ((C13.optValJ j "v").getD .null))
+  | "concat" => splice (spliceConcat before after)
+  | "insertMany" => splice (spliceInsertMany prim (jint j "n"))
+  | "replaceMany" => splice (spliceReplaceMany (jint j "n") ((C13.optIntJ j "m").getD 1) 0 prim)
+  | "defaultIfEmpty" => splice (spliceDefault prim)
+  | "selectMany" => some (mSelectManyInner (!prim.isEmpty))
+  | _ => none
+
 def runCase (c : Json) : Json :=
   let base := (jarr c "base").map asInt
   let ops := (jarr c "ops").map C13.opOfJson
-  if ops.any Option.isNone then jerr "bad-op"
+  let post := if jhas c "post" then (jarr c "post").map C13.opOfJson else []
+  if ops.any Option.isNone || post.any Option.isNone then jerr "bad-op"
   else
-    let ms := (ops.filterMap id).map machineOf
+    let sec : List (Option Machine) := if jhas c "sec" && !jisNull (jget c "sec") then [secMachine (jget c "sec")] else []
+    let ms := (ops.filterMap id).map machineOf ++ sec ++ (post.filterMap id).map machineOf
     if ms.any Option.isNone then jerr "not-streaming"
     else
       let xs := prefixOf (sourceFn base (jint c "delta") (jbool c "dict")) (jnat c "n")
-      let st := Stream.runPipe (ms.filterMap id) (src xs)
+      let closed := jhas c "len" && !jisNull (jget c "len")
+      let st := Stream.runPipe (ms.filterMap id) (if closed then srcClosed (xs.take (jnat c "len")) else src xs)
       let o := st.outs
       let k := jnat c "k"
       -- `fin`: the pipeline is known to end (stamps of the end) although fewer than k results exist
